@@ -558,9 +558,19 @@ func TestCheck(t *testing.T) {
 		r.Watchdog(60 * time.Second)
 	}
 	var sc scriptT
+	var bt burstT
+	if mon.ReplayCase(&bt) && bt.Burst {
+		judgeBurst(r, t, bt)
+		return
+	}
 	if mon.ReplayCase(&sc) {
 		judge(r, t, sc, map[bool]string{true: "gap", false: "model"}[sc.Gap])
 		return
+	}
+	for i, b := range burstGrid() {
+		if r.Mine(i) {
+			judgeBurst(r, t, b)
+		}
 	}
 	n := r.Pick(30000, 3000000)
 	for i := 0; i < n; i++ {
